@@ -189,17 +189,17 @@ func cmdCheck(args []string) int {
 	}
 	wg.Wait()
 	// second chance, without contention: an obligation that only timed out (no model) while many solver processes were
-	// racing is retried alone with three times the budget before it is reported.  Never applied to `sat` answers.
+	// racing is retried alone with twice the budget (at most four obligations per run) before it is reported.  Never applied to `sat` answers.
 	retried := 0
 	for i, o := range run.obls {
 		if o.Cover || o.Result == nil || o.Result.Status == "unsat" || o.Result.Status == "sat" || o.Goal == "false" || o.Goal == "true" {
 			continue
 		}
-		if retried >= 12 {
+		if retried >= 4 {
 			break
 		}
 		retried++
-		res := run.pool.solve(queries[i], 3*run.timeout, nil)
+		res := run.pool.solve(queries[i], 2*run.timeout, nil)
 		if res.Status == "unsat" || res.Status == "sat" {
 			o.Result = &res
 			run.byBack[res.Solver]++
